@@ -89,7 +89,7 @@ def runPool (cfg script : String) : String :=
     | some st => ",".intercalate st.out.reverse
   | _ => "bad-case"
 
-def run (case _impl : String) : String :=
+def run (case impl : String) : String :=
   match words case with
   | ["frames", hex] =>
     match parseHex hex with
@@ -97,6 +97,7 @@ def run (case _impl : String) : String :=
     | none => "bad-case"
   | ["conn", wc, ops] => if wc == "0" || wc == "1" then C02.runConn (C02.splitOps ops) else "bad-case"
   | ["conn", wc] => if wc == "0" || wc == "1" then C02.runConn [] else "bad-case"
+  | ["conne", wc, ops] => if wc == "0" || wc == "1" then C02.runConnEv (C02.splitOps ops) else "bad-case"
   | ["kax", cfg, n] =>
     -- n requests in flight against a silent peer with keep-alive on: judged by the oracle only in this form
     -- (`Props.C10.keepalive_silence_breaks`, `keepalive_exhausted_ids_breaks`); the `ka` form of the same schedule
@@ -121,7 +122,7 @@ def run (case _impl : String) : String :=
       match i.toNat?, t.toNat? with
       | some i, some t =>
         if (wc == "0" || wc == "1") && i > 0 && t > 0 then
-          C02.runConnKa i t (C02.splitOps (ops.headD "")) else "bad-case"
+          C02.runConnKa i t (C02.splitOps (ops.headD "")) impl else "bad-case"
       | _, _ => "bad-case"
     | _, _ => "bad-case"
   | _ => "bad-case"
